@@ -17,6 +17,8 @@ pub struct Homology {
     pub n: usize,
     pub k: usize,
     pub b: i64,
+    /// d1 is a diagonal matrix with symbolic diagonal (planted torsion with several, possibly incomparable, factors)
+    pub diag: bool,
 }
 
 impl Homology {
@@ -24,7 +26,7 @@ impl Homology {
         if self.ring == RingSel::Z || self.ring == RingSel::Q { 1 } else { 2 }
     }
     fn split<'a, I>(&self, xs: &'a [I]) -> (&'a [I], &'a [I]) {
-        xs.split_at(self.n * self.m * self.arity())
+        xs.split_at(if self.diag { self.n.min(self.m) * self.arity() } else { self.n * self.m * self.arity() })
     }
     fn pre_r<I, R>(&self, xs: &[I])
     where
@@ -54,7 +56,12 @@ impl Homology {
     {
         let (m, n, k) = (self.m, self.n, self.k);
         let (x1, x2) = self.split(xs);
-        let g1: Grid<R> = build_grid::<I, R>(n, m, x1);
+        let g1: Grid<R> = if self.diag {
+            let ar = R::ARITY;
+            (0..n).map(|i| (0..m).map(|j| if i == j { R::build(&x1[i * ar..(i + 1) * ar]) } else { R::zero() }).collect()).collect()
+        } else {
+            build_grid::<I, R>(n, m, x1)
+        };
         let g2: Grid<R> = build_grid::<I, R>(k, n, x2);
         let (d1, d2) = (grid_to_sp(&g1, n, m), grid_to_sp(&g2, k, n));
         let (rank, tors, trans) = HomologyCalc::calculate(d1, d2, true);
@@ -116,7 +123,7 @@ impl Homology {
 
 impl Harness for Homology {
     fn id(&self) -> String {
-        format!("homology/{:?}/{}-{}-{}/B{}", self.ring, self.m, self.n, self.k, self.b)
+        format!("homology/{:?}/{}-{}-{}/B{}{}", self.ring, self.m, self.n, self.k, self.b, if self.diag { "/diagonal-d1" } else { "" })
     }
     fn functions(&self) -> Vec<&'static str> {
         vec!["yui_homology::utils::HomologyCalc::{calculate,process_snf,result,trans,trivial_result}", "yui_matrix::dense::snf::snf_in_place (generic elimination path)",
@@ -128,6 +135,9 @@ impl Harness for Homology {
         for (name, r, c) in [("d1_", self.n, self.m), ("d2_", self.k, self.n)] {
             for i in 0..r {
                 for j in 0..c {
+                    if self.diag && name == "d1_" && i != j {
+                        continue;
+                    }
                     for t in 0..a {
                         v.push(InputSpec::boxed(&format!("{}{}{}{}", name, i, j, if a == 1 { "" } else { ["r", "w"][t] }), self.b));
                     }
@@ -140,6 +150,10 @@ impl Harness for Homology {
     where
         for<'x> &'x I: VIntOps<I>,
     {
+        if self.diag {
+            assert!(self.k == 0, "diagonal configurations have no outgoing differential");
+            return;
+        }
         match self.ring {
             RingSel::Z | RingSel::Q => self.pre_r::<I, I>(xs),
             // quadratic rings: see `pre_quad`
@@ -202,14 +216,19 @@ pub fn configs(tier: crate::registry::Tier, _seed: u64) -> Vec<crate::registry::
         (RingSel::Z, 2, 3, 1, 1, 600, 150.0), (RingSel::Gauss, 1, 1, 1, 1, 300, 60.0), (RingSel::Gauss, 1, 2, 1, 1, 400, 150.0), (RingSel::Eisen, 1, 1, 1, 1, 300, 60.0),
         (RingSel::Q, 1, 2, 1, 2, 600, 120.0), (RingSel::Q, 2, 2, 1, 1, 600, 120.0), (RingSel::Q, 1, 1, 1, 3, 200, 30.0),
     ] {
-        v.push(entry(Homology { ring, m, n, k, b }, cls, secs));
+        v.push(entry(Homology { ring, m, n, k, b, diag: false }, cls, secs));
     }
+    // planted torsion: diagonal d1 with symbolic diagonal, d2 = 0 (k = 0)
+    v.push(entry(Homology { ring: RingSel::Z, m: 3, n: 3, k: 0, b: 6, diag: true }, 3000, 150.0));
+    v.push(entry(Homology { ring: RingSel::Z, m: 2, n: 3, k: 0, b: 8, diag: true }, 1000, 60.0));
+    v.push(entry(Homology { ring: RingSel::Gauss, m: 2, n: 2, k: 0, b: 2, diag: true }, 1000, 90.0));
     if tier == Tier::Thorough {
+        v.push(entry(Homology { ring: RingSel::Z, m: 4, n: 4, k: 0, b: 6, diag: true }, 20000, 1800.0));
         for (ring, m, n, k, b, cls, secs) in [
             (RingSel::Z, 2, 2, 2, 2, 5000, 900.0), (RingSel::Z, 2, 3, 2, 1, 5000, 900.0), (RingSel::Z, 3, 3, 1, 1, 5000, 900.0), (RingSel::Z, 1, 2, 1, 6, 5000, 900.0),
             (RingSel::Z, 2, 2, 1, 4, 5000, 900.0), (RingSel::Gauss, 2, 2, 1, 1, 5000, 900.0), (RingSel::Eisen, 1, 2, 1, 1, 5000, 900.0),
         ] {
-            v.push(entry(Homology { ring, m, n, k, b }, cls, secs));
+            v.push(entry(Homology { ring, m, n, k, b, diag: false }, cls, secs));
         }
     }
     v
